@@ -507,7 +507,10 @@ class Interp:
                 return self.bind(self.eval(e.elt, s), add)
             g0 = gens[0]
             def over(itv, s2):
-                items = self.B.iter_values(self, itv, s2)
+                lazy = kind == "gen" and len(e.generators) == 1 and self.B.is_truncated(itv, s2)
+                items = self.B.iter_values(self, itv, s2, allow_truncated=lazy)
+                if lazy:
+                    s2.obj(acc_ref).cls = self.B.TRUNCATED
                 if items is None:
                     s2.note(f"comprehension over abstract iterable {ast.unparse(g0.iter)[:40]}")
                     s2.obj(acc_ref).items.append(Unknown("comp"))
@@ -547,7 +550,7 @@ class Interp:
         return self._comp(e, st, "list")
 
     def e_GeneratorExp(self, e, st):
-        return self._comp(e, st, "list")
+        return self._comp(e, st, "gen")
 
     def e_SetComp(self, e, st):
         return self._comp(e, st, "set")
